@@ -219,7 +219,7 @@ func show(c Case) string {
 
 var hdrNames = []string{"X-Api", "x-api", "Accept", "User-Agent", "X-B"}
 var hdrExprs = []string{"", "^v1$", "Caddy", "[0-9]+", "^(a|b)$", "^[0-9a-f]+$", "(?i)^caddy", "a$", "^[a-z0-9/ ]*$"}
-var hdrVals = []string{"v1", "v12", "Caddy/2", "x", "7", "a", "", "ab", "CADDY", "deadbeef", "7a"}
+var hdrVals = []string{"v1", "v12", "Caddy/2", "x", "7", "a", "", "ab", "CADDY", "deadbeef", "7a", "V1", "A", "B", "caddy", " v1", "v1 "}
 
 // hdrValue draws a header value: mostly from the pool, sometimes a very long
 // one (4..9 KB, beyond any buffer a matcher might use) whose verdict may hinge
